@@ -733,7 +733,11 @@ impl Session {
             }
             self.files_extracted = true;
         } else if self.candidates.is_empty() {
-            self.spawn_tracker();
+            // Announce which is still in progress (it retries until tracker answers) will bring
+            // new candidates, second one would only orphan its task
+            if self.tracker.job.is_none() {
+                self.spawn_tracker();
+            }
         } else {
             self.spawn_peer_handler();
         }
